@@ -455,8 +455,10 @@ impl LockFreeMemoryPool {
             let (current_offset, current_gen) = Self::unpack_head(packed);
 
             if current_offset == LIST_TAIL {
-                // Empty bin, need to allocate new memory
-                return self.allocate_new_block(size);
+                // Empty bin, need to allocate new memory. Carve the full bin size:
+                // on free the block is filed under this bin and may then serve any
+                // request up to FAST_BIN_SIZES[bin_index].
+                return self.allocate_new_block(FAST_BIN_SIZES[bin_index]);
             }
 
             // Load next pointer from current head
@@ -501,8 +503,8 @@ impl LockFreeMemoryPool {
             }
         }
 
-        // Max retries exceeded, fall back to new allocation
-        self.allocate_new_block(size)
+        // Max retries exceeded, fall back to new allocation (full bin size, see above)
+        self.allocate_new_block(FAST_BIN_SIZES[bin_index])
     }
 
     /// Deallocate to fast bin using lock-free stack
